@@ -3,7 +3,7 @@ Line-protocol driver for C16.
 
 (a) patches <grouped 0|1> <vulns> <oldreqs> <table> <schedule>
       vulns    = hex,hex,…                       initial vulnerability ids (resolved.Vulns)
-      oldreqs  = name:ver,…                      requirements of the original manifest (hex)
+      oldreqs  = name:ver[:key],…                requirements of the original manifest (hex); key = npm alias (KnownAs), default the name
       table    = task=E | task=reqs@vulns | …    `|`-separated; task = hex.hex.… (the id list handed to patchFunc);
                                                  E = the strategy failed; reqs = name:ver,… of the patched manifest;
                                                  vulns = ids still/newly present after the patch; absent task = E
@@ -36,8 +36,11 @@ def reqsOf (s : String) : Option (List Req) :=
   (listOf s ",").mapM fun p =>
     match p.splitOn ":" with
     | [n, v] => match strOf n, strOf v with
-      | some n, some v => some ⟨n, v⟩
+      | some n, some v => some ⟨n, v, n⟩
       | _, _ => none
+    | [n, v, k] => match strOf n, strOf v, strOf k with       -- an alias: requirement key k for a package named n
+      | some n, some v, some k => some ⟨n, v, k⟩
+      | _, _, _ => none
     | _ => none
 
 inductive Entry | fail | ok (reqs : List Req) (vulns : List Str)
